@@ -1061,8 +1061,10 @@ ConnectionMap createConnectionMap(const VariablePtr &variable1, const VariablePt
     ComponentPtr component2 = owningComponent(variable2);
     if ((component1 != nullptr) && (component2 != nullptr)) {
         for (size_t i = 0; i < component1->variableCount(); ++i) {
+            // The variable pairs of a connection are the equivalences themselves, not what they imply.
             auto v = component1->variable(i);
-            for (const auto &vEquiv : equivalentVariables(v)) {
+            for (size_t j = 0; j < v->equivalentVariableCount(); ++j) {
+                auto vEquiv = v->equivalentVariable(j);
                 if (owningComponent(vEquiv) == component2) {
                     map.emplace_back(v, vEquiv);
                 }
